@@ -46,7 +46,7 @@ def main():
             results[n] = {"quiet": len(res) - len(loud), "loud": loud}
             print(n, "quiet on %d checks" % (len(res) - len(loud)), "LOUD: %s" % loud if loud else "", flush=True)
         finally:
-            sh("git -C /repo checkout -- .")
+            sh("git -C /repo checkout -- . && git -C /repo clean -fdq contracts packages")
     sh("python3 run.py setup", cwd=ROOT)
     json.dump(results, open(os.path.join(ROOT, "harmless", "results.json"), "w"), indent=1)
 
